@@ -18,7 +18,7 @@ func init() {
 			"C17.2 same CRC input on both sides: crcIP(ip, id[19]); in crcIP the IPv4 form is chosen by To4() ≠ nil, the address is masked with the BEP 42 constants (03 0f 3f ff / 01 03 07 0f 1f 3f 7f ff), the seed is rand&7 shifted into the top three bits of byte 0, and CRC32-C (Castagnoli) runs over exactly the masked prefix ip[:len(mask)]; " +
 			"C17.3 exemption and self-securing: NodeIdSecure returns true for local addresses before any comparison; the exemption covers 10/8, 172.16/12, 192.168/16, link-local and loopback; InitNodeId secures a freshly generated ID whenever a public IP is configured and (the ID is derived from the listen address, or security is not disabled); MakeDeterministicNodeID secures with the IP of the address it hashed.",
 		NotDecided: "CRC32-C values and exhaustive agreement with an independent BEP 42 implementation over all addresses (value level); idempotence as a statement about all inputs (it follows from C17.1: the CRC input excludes the bits written).",
-		Assume: []string{"hash/crc32 implements CRC32-C for the Castagnoli table"},
+		Assume:     []string{"hash/crc32 implements CRC32-C for the Castagnoli table"},
 		Rules: []*Rule{
 			{ID: "C17.1", Doc: "21 bits: writer and reader agree on bytes, masks and shifts", Floor: 8, Run: c17r1},
 			{ID: "C17.2", Doc: "CRC input: masks, seed, prefix length, polynomial", Floor: 7, Run: c17r2},
@@ -360,7 +360,9 @@ func c17r3(w *World, rr *RuleRun) {
 	cidrForm := len(sum) > 0
 	for _, alt := range sum {
 		for _, g := range []string{"classA", "classB", "classC"} {
-			if !alt.Has("b", false, func(x *Term) bool { return x.Op == OpCall && suffixName(x) == "Contains" && strings.Contains(x.Args[0].String(), g) }) {
+			if !alt.Has("b", false, func(x *Term) bool {
+				return x.Op == OpCall && suffixName(x) == "Contains" && strings.Contains(x.Args[0].String(), g)
+			}) {
 				cidrForm = false
 			}
 		}
@@ -411,6 +413,54 @@ func c17r3(w *World, rr *RuleRun) {
 	}
 	if nGen == 0 {
 		rr.Oblige(shortFuncName(ini), "InitNodeId has paths that generate an ID with a public IP configured", w.P.Pos(ini.Pos()), false, "")
+	}
+	// the paths on which a generated ID is left unsecured although a public IP is configured all
+	// need Conn = nil: the server constructor must therefore settle Conn before it calls InitNodeId
+	unsecuredNeedsNoConn, nUnsec := true, 0
+	for _, ex := range fi.exits {
+		for _, alt := range ex.st {
+			if alt.Has("b", false, func(x *Term) bool { return x.Op == OpCall && suffixName(x) == "IsZero" }) {
+				continue
+			}
+			if alt.Has("n", false, func(x *Term) bool { return isFieldTerm(x, pub) }) {
+				continue // no public IP configured on this path
+			}
+			if alt.Called("SecureNodeId", func(s *Term) bool { return isFieldTerm(s, pub) }) {
+				continue
+			}
+			nUnsec++
+			if !alt.Has("n", false, func(x *Term) bool { return isFieldTerm(x, conn) }) {
+				unsecuredNeedsNoConn = false
+			}
+		}
+	}
+	for _, e := range w.CG.CallersOf(ini) {
+		if !w.P.IsLib(e.Caller) || e.Callback {
+			continue
+		}
+		if nUnsec == 0 {
+			rr.ObligeTrivialAt(w, e.Site, "InitNodeId is called with the listen socket settled", true, "InitNodeId secures every generated ID when a public IP is set")
+			continue
+		}
+		if !unsecuredNeedsNoConn {
+			rr.At(w, e.Site, "InitNodeId is called with the listen socket settled", false, "InitNodeId can leave a generated ID unsecured with a public IP set even when Conn is set")
+			continue
+		}
+		w.Require(rr, e.Site, "InitNodeId is called with the listen socket settled", func(alt *Alt) (bool, string) {
+			if alt.Has("n", true, func(x *Term) bool { return isFieldTerm(x, conn) }) {
+				return true, "Conn ≠ nil"
+			}
+			if alt.Has("n", false, func(x *Term) bool {
+				// error result of a net.Listen* call is nil: its connection was stored
+				if x.Op != OpExtract || x.Name != "1" || len(x.Args) == 0 || x.Args[0].Op != OpCall {
+					return false
+				}
+				return strings.HasPrefix(x.Args[0].Name, "net.Listen")
+			}) {
+				return true, "Conn freshly opened (net.Listen* succeeded)"
+			}
+			return false, "Conn may still be nil here, and InitNodeId leaves a random ID unsecured when Conn = nil and NoSecurity is set, whatever PublicIP says"
+		})
 	}
 	for _, site := range w.CallsIn(ini, w.P.Func("SecureNodeId"), false) {
 		c := callInstrCommon(site)
